@@ -435,6 +435,70 @@ func laneSettings(c *ev.Ctx, id string, seed int64) {
 
 func get2(cli *s3c.Client, b string, s setting) *s3c.Resp { return cli.Sub("GET", b, "", s.sub, nil) }
 
+// laneInternalNames: "DeleteBucket succeeds only on a bucket without objects" also for keys that coincide with names
+// the gateway uses internally inside a bucket directory. An upload of such a key is either refused or the object
+// counts like any other: listed, and in the way of DeleteBucket.
+func laneInternalNames(c *ev.Ctx, id string, sidecar bool) {
+	if !c.Want(id) {
+		return
+	}
+	store := "xattr"
+	if sidecar {
+		store = "sidecar"
+	}
+	env, err := fx.New("c16i", gw.Config{Versioning: true, Sidecar: sidecar}, 1)
+	if err != nil {
+		c.Inconclusive("gateway start: " + err.Error())
+		return
+	}
+	defer env.Close()
+	cl := env.Client(0)
+	for i, key := range []string{".sgwtmp/obj", ".sgwtmp/multipart/x/y", ".sgwtmp", "dir/.sgwtmp/obj", ".sgwtmp/"} {
+		b := fmt.Sprintf("internal-names-%d", i)
+		if rr := cl.CreateBucket(b); !rr.OK() {
+			c.Inconclusive("create bucket: " + rr.String())
+			return
+		}
+		var body []byte
+		if !strings.HasSuffix(key, "/") {
+			body = []byte("acknowledged data under " + key)
+		}
+		p := cl.PutObject(b, key, body)
+		c.Eval(1)
+		if !p.OK() {
+			c.Distinct("I|refused|" + key + "|" + store)
+			continue
+		}
+		det := map[string]any{"bucket": b, "key": key, "put": p.String()}
+		g := cl.GetObject(b, key)
+		det["get"] = g.String()
+		listed := false
+		if l := cl.ListV2(b); l.OK() {
+			if res, err := s3c.ParseList(l.Body); err == nil {
+				for _, e := range res.Contents {
+					if e.Key == key {
+						listed = true
+					}
+				}
+			}
+		}
+		det["listed"] = listed
+		d := cl.DeleteBucket(b)
+		det["delete_bucket"] = d.String()
+		if d.Status == 204 || d.Status == 200 {
+			c.Violation("internal-name:"+key+":acknowledged-object-deleted-with-the-bucket["+store+"]", id, det)
+			continue
+		}
+		if !g.OK() || (!strings.HasSuffix(key, "/") && string(g.Body) != string(body)) {
+			c.Violation("internal-name:"+key+":acknowledged-object-unreadable["+store+"]", id, det)
+		} else if !listed {
+			c.Violation("internal-name:"+key+":acknowledged-object-not-listed["+store+"]", id, det)
+		} else {
+			c.Distinct("I|stored|" + key + "|" + store)
+		}
+	}
+}
+
 func laneListBuckets(c *ev.Ctx, id string, seed int64) {
 	r := rand.New(rand.NewSource(seed))
 	env, err := fx.New("c16l", gw.Config{}, 1)
@@ -999,6 +1063,8 @@ func Run(c *ev.Ctx) int {
 			run(func() { laneListBuckets(c, id, seed) })
 		}
 	}
+	run(func() { laneInternalNames(c, "I/xattr", false) })
+	run(func() { laneInternalNames(c, "I/sidecar", true) })
 	ra := c.Rng("acl")
 	for i := 0; i < c.Pick(6, 200); i++ {
 		id := fmt.Sprintf("A/acl/%d", i)
